@@ -13,6 +13,9 @@ from pyvc.stubs_lib import FREQ_DIM, TIME_DIM, TAU_T
 from pyvc.interp import ClassRef
 
 CONTRACTS = []
+# which components of a result belong to which property when a contract serves several
+TIME_PARTS = r"(\.data|sample_rate|start_time|\.type|raises|returns-normally|is-signal|frame)"
+FREQ_PARTS = r"(\.data|channel-labels|chan_bw|center_freq|freq_align|\.type|raises|returns-normally|is-signal)"
 RADIO = ["RadioSignal", "IntensitySignal", "FullStokesSignal", "BasebandSignal", "DualPolarizationSignal"]
 CTOR_PARAMS = {
     "Signal": ["sample_rate", "start_time", "meta"],
@@ -38,11 +41,11 @@ def contract(qualname, instances, props=(), body=None):
 
 # --------------------------------------------------------------------------- slices as inputs
 
-def sym_slice(name, pattern):
-    """pattern: 3 chars over {'n' (None), 's' (symbolic int)} or a concrete int via tuple."""
+def sym_slice(nm, name, pattern):
+    """pattern: 3 chars over {'n' (None), 's' (symbolic int)}."""
     parts = []
     for ch, part in zip(pattern, ("start", "stop", "step")):
-        parts.append(None if ch == "n" else z3.Int(f"{name}_{part}"))
+        parts.append(None if ch == "n" else nm.int(f"{name}_{part}"))
     return SSlice(*parts)
 
 
@@ -75,9 +78,9 @@ def inst_time_slice():
     for cls in ["Signal", "RadioSignal", "DualPolarizationSignal"]:
         for has_t0 in (True, False):
             for pat in TIME_PATTERNS:
-                def build(interp, ctx, cls=cls, has_t0=has_t0, pat=pat):
-                    z = mk_signal(interp, ctx, "z", cls, has_t0=has_t0)
-                    return (z, sym_slice("ix", pat)), {}
+                def build(interp, ctx, nm, cls=cls, has_t0=has_t0, pat=pat):
+                    z = mk_signal(interp, ctx, "z", cls, has_t0=has_t0, nm=nm)
+                    return (z, sym_slice(nm, "ix", pat)), {}
                 out.append(Instance(f"{cls},t0={int(has_t0)},slice={pat}", build))
     return out
 
@@ -119,23 +122,24 @@ def inst_like():
     pairs = [(a, b) for a in SIGNAL_CLASSES for b in SIGNAL_CLASSES]
     for tgt, src in pairs:
         for variant in ("plain", "override"):
-            def build(interp, ctx, tgt=tgt, src=src, variant=variant):
-                obj = mk_signal(interp, ctx, "o", src, extra_rank=1, has_meta=True)
+            def build(interp, ctx, nm, tgt=tgt, src=src, variant=variant):
+                obj = mk_signal(interp, ctx, "o", src, extra_rank=1, has_meta=True, nm=nm)
                 g = obj.ghost
                 # data of the target's default dtype with the same shape as obj (may violate tgt's shape contract)
                 from pyvc.sigmodel import DEFAULT_DTYPE
-                z = sym_array("znew", g["data"].shape, DEFAULT_DTYPE[tgt])
+                z = sym_array("znew", g["data"].shape, DEFAULT_DTYPE[tgt], nm=nm)
                 kw = {}
                 if variant == "override":
-                    kw["sample_rate"] = Qty(z3.Real("kw_sr"), FREQ_DIM, interp.stubs.units["Hz"])
-                    ctx.assume(z3.Real("kw_sr") > 0, why="input")
+                    ksr = nm.real("kw_sr", 7)
+                    kw["sample_rate"] = Qty(ksr, FREQ_DIM, interp.stubs.units["Hz"])
+                    ctx.assume(V.lt(0, ksr), why="input")
                     kw["start_time"] = None
                 return (ClassRef(interp.repo.get_class(f"pulsarbat.core.{tgt}")), obj, z), kw
             out.append(Instance(f"{tgt}.like({src}),{variant}", build))
     # z omitted: data taken from obj
     for src in SIGNAL_CLASSES:
-        def build(interp, ctx, src=src):
-            obj = mk_signal(interp, ctx, "o", src)
+        def build(interp, ctx, nm, src=src):
+            obj = mk_signal(interp, ctx, "o", src, nm=nm)
             return (ClassRef(obj.cls), obj), {}
         out.append(Instance(f"{src}.like({src}),z=None", build))
     return out
@@ -155,28 +159,28 @@ def inst_getitem(classes, with_freq):
     for cls in classes:
         for has_t0 in (True, False):
             for pat in TIME_PATTERNS:
-                def build(interp, ctx, cls=cls, has_t0=has_t0, pat=pat):
-                    z = mk_signal(interp, ctx, "z", cls, has_t0=has_t0, extra_rank=1)
-                    return (z, sym_slice("ix", pat)), {}
+                def build(interp, ctx, nm, cls=cls, has_t0=has_t0, pat=pat):
+                    z = mk_signal(interp, ctx, "z", cls, has_t0=has_t0, extra_rank=1, nm=nm)
+                    return (z, sym_slice(nm, "ix", pat)), {}
                 out.append(Instance(f"{cls},t0={int(has_t0)},[{pat}]", build))
         # tuple forms
         for pat, fpat in ([("sss", f) for f in FREQ_PATTERNS] + [("nnn", "ssn"), ("snn", "ssn")]):
-            def build(interp, ctx, cls=cls, pat=pat, fpat=fpat):
-                z = mk_signal(interp, ctx, "z", cls, extra_rank=1, align="bottom")
-                return (z, (sym_slice("ix", pat), sym_slice("fx", fpat))), {}
+            def build(interp, ctx, nm, cls=cls, pat=pat, fpat=fpat):
+                z = mk_signal(interp, ctx, "z", cls, extra_rank=1, align="bottom", nm=nm)
+                return (z, (sym_slice(nm, "ix", pat), sym_slice(nm, "fx", fpat))), {}
             out.append(Instance(f"{cls},[{pat},{fpat}]", build))
         for align in ("top", "center"):
-            def build(interp, ctx, cls=cls, align=align):
-                z = mk_signal(interp, ctx, "z", cls, extra_rank=1, align=align, has_t0=False)
-                return (z, (sym_slice("ix", "ssn"), sym_slice("fx", "ssn"), sym_slice("gx", "ssn"))), {}
+            def build(interp, ctx, nm, cls=cls, align=align):
+                z = mk_signal(interp, ctx, "z", cls, extra_rank=1, align=align, has_t0=False, nm=nm)
+                return (z, (sym_slice(nm, "ix", "ssn"), sym_slice(nm, "fx", "ssn"), sym_slice(nm, "gx", "ssn"))), {}
             out.append(Instance(f"{cls},align={align},[ssn,ssn,ssn]", build))
-        def build(interp, ctx, cls=cls):
-            z = mk_signal(interp, ctx, "z", cls, extra_rank=1)
-            return (z, (sym_slice("ix", "ssn"),)), {}
+        def build(interp, ctx, nm, cls=cls):
+            z = mk_signal(interp, ctx, "z", cls, extra_rank=1, nm=nm)
+            return (z, (sym_slice(nm, "ix", "ssn"),)), {}
         out.append(Instance(f"{cls},[(ssn,)]", build))
-        def build(interp, ctx, cls=cls):
-            z = mk_signal(interp, ctx, "z", cls, extra_rank=1)
-            return (z, z3.Int("k")), {}
+        def build(interp, ctx, nm, cls=cls):
+            z = mk_signal(interp, ctx, "z", cls, extra_rank=1, nm=nm)
+            return (z, nm.int("k")), {}
         out.append(Instance(f"{cls},[int]", build))
     return out
 
@@ -205,13 +209,13 @@ def spec_getitem_common(c, self, index, freq_axis):
     return construct(c, g.cls, data, like_attrs(g, **over))
 
 
-@contract("pulsarbat.core.Signal.__getitem__", inst_getitem(["Signal"], False), props=("C01", "C16"))
+@contract("pulsarbat.core.Signal.__getitem__", inst_getitem(["Signal"], False), props={"C01": TIME_PARTS, "C16": None})
 def spec_signal_getitem(c, self, index):
     return spec_getitem_common(c, self, index, False)
 
 
 @contract("pulsarbat.core.RadioSignal.__getitem__",
           inst_getitem(["RadioSignal", "IntensitySignal", "BasebandSignal", "DualPolarizationSignal", "FullStokesSignal"], True),
-          props=("C01", "C02", "C16"))
+          props={"C01": TIME_PARTS, "C02": FREQ_PARTS, "C16": None})
 def spec_radio_getitem(c, self, index):
     return spec_getitem_common(c, self, index, True)
